@@ -267,9 +267,13 @@ def seal_reply(cfg, msg_id, engine_id, boots, time, scoped, flags=None, salt=Non
     usm = refber.build_usm(engine_id, boots, time, user, auth_params, priv_params)
     msg = refber.build_v3(msg_id, flags, usm, data)
     if flags & 1 and auth:
-        r = refber.parse_message(msg)
-        mac = refcrypto.mac_of_message(cfg.auth, cfg.auth_kul(engine_id), msg, r.auth_off)
-        msg = msg[: r.auth_off] + mac + msg[r.auth_off + 12 :]
+        # offset of the 12 placeholder octets: 5th field of the USM sequence (the message body may be malformed on purpose)
+        base = msg.index(usm)
+        top = refber.parse_tlv(usm, 0, len(usm))
+        fields = refber.parse_seq(usm, top.cstart, top.end)
+        off = base + fields[4].cstart
+        mac = refcrypto.mac_of_message(cfg.auth, cfg.auth_kul(engine_id), msg, off)
+        msg = msg[:off] + mac + msg[off + 12 :]
     return msg
 
 
